@@ -31,8 +31,22 @@ func hTexts() []string {
 		`{"k": "` + s + s + `", "n": {"m": ` + d2 + `}, "t": @t | @u}`,
 		`[` + d1 + `, {"z": "` + s + `"}]`,
 		`{"a": 1 // {min: ` + d1 + `, bogusRule: 1}` + "\n}", // fails inside the loader (unknown rule) for every d1
-		`{"a": ` + d1, // fails inside the scanner: unexpected end
+		`{"a": ` + d1,                  // fails inside the scanner: unexpected end
+		`{"a": 1, "b": [` + d1 + `, 2`, // fails after the root node and a nested array exist
+		"# only a comment " + s,        // a schema without a root value
+		hLongArray(d2),                 // an example longer than the pooled buffers' initial size
 	}
+}
+
+func hLongArray(d string) string {
+	t := "["
+	for i := 0; i < 120; i++ {
+		if i > 0 {
+			t += ","
+		}
+		t += "1234" + d
+	}
+	return t + "]"
 }
 
 func hNew(text string) *JSchema {
